@@ -9,14 +9,22 @@ Theorem C20_ClgnMnist : forall k, 1 <= k -> run (ClgnMnist_layers k) (Sp 1 [28; 
 Proof. exact ClgnMnist_ok. Qed.
 Theorem C20_ClgnCifar10 : forall k, 1 <= k ->
   run (ClgnCifar10_nbits1_layers k) (Sp 3 [32; 32]) (fun s => s = Fl 10)
+  /\ run (ClgnCifar10_nbits2_layers k) (Sp 6 [32; 32]) (fun s => s = Fl 10)
   /\ run (ClgnCifar10_nbits3_layers k) (Sp 9 [32; 32]) (fun s => s = Fl 10)
+  /\ run (ClgnCifar10_nbits4_layers k) (Sp 12 [32; 32]) (fun s => s = Fl 10)
   /\ run (ClgnCifar10_nbits5_layers k) (Sp 15 [32; 32]) (fun s => s = Fl 10).
-Proof. intros k Hk. exact (conj (ClgnCifar10_1_ok k Hk) (conj (ClgnCifar10_3_ok k Hk) (ClgnCifar10_5_ok k Hk))). Qed.
+Proof. intros k Hk. exact (conj (ClgnCifar10_1_ok k Hk) (conj (ClgnCifar10_2_ok k Hk) (conj (ClgnCifar10_3_ok k Hk) (conj (ClgnCifar10_4_ok k Hk) (ClgnCifar10_5_ok k Hk))))). Qed.
 Theorem C20_ClgnCifar10Res : forall k, 1 <= k ->
   run (ClgnCifar10Res_nbits1_layers k) (Sp 3 [32; 32]) (fun s => s = Fl 10)
+  /\ run (ClgnCifar10Res_nbits2_layers k) (Sp 6 [32; 32]) (fun s => s = Fl 10)
   /\ run (ClgnCifar10Res_nbits3_layers k) (Sp 9 [32; 32]) (fun s => s = Fl 10)
+  /\ run (ClgnCifar10Res_nbits4_layers k) (Sp 12 [32; 32]) (fun s => s = Fl 10)
   /\ run (ClgnCifar10Res_nbits5_layers k) (Sp 15 [32; 32]) (fun s => s = Fl 10).
-Proof. intros k Hk. exact (conj (ClgnCifar10Res_1_ok k Hk) (conj (ClgnCifar10Res_3_ok k Hk) (ClgnCifar10Res_5_ok k Hk))). Qed.
+Proof. intros k Hk. exact (conj (ClgnCifar10Res_1_ok k Hk) (conj (ClgnCifar10Res_2_ok k Hk) (conj (ClgnCifar10Res_3_ok k Hk) (conj (ClgnCifar10Res_4_ok k Hk) (ClgnCifar10Res_5_ok k Hk))))). Qed.
+(* the layer lists above are those of the GENERIC scale; where a constructor compares two scale-dependent sizes (the residual
+   block's in_channels != out_channels), the scale at which the comparison flips is constructed concretely and checked here *)
+Theorem C20_exceptional_scales : forallb fixed_ok exceptional_models = true.
+Proof. exact exceptional_models_ok. Qed.
 Theorem C20_ClgnCifar10Tiny : forall k, 1 <= k -> run (ClgnCifar10Tiny_layers k) (Sp 9 [32; 32]) (fun s => s = Fl 10).
 Proof. exact ClgnCifar10Tiny_ok. Qed.
 Theorem C20_ClgnCifar10Mini : forall k, 1 <= k -> run (ClgnCifar10Mini_layers k) (Sp 9 [32; 32]) (fun s => s = Fl 10).
@@ -45,4 +53,5 @@ Eval compute in "PA:C20_ClgnCifar10Tiny"%string. Print Assumptions C20_ClgnCifar
 Eval compute in "PA:C20_ClgnCifar10Mini"%string. Print Assumptions C20_ClgnCifar10Mini.
 Eval compute in "PA:C20_CNN"%string. Print Assumptions C20_CNN.
 Eval compute in "PA:C20_Dlgn"%string. Print Assumptions C20_Dlgn.
+Eval compute in "PA:C20_exceptional_scales"%string. Print Assumptions C20_exceptional_scales.
 Eval compute in "PA:C20_fixed_scale_classes"%string. Print Assumptions C20_fixed_scale_classes.
